@@ -6,7 +6,8 @@
    the case's environment gives every atom its SI exponent vector.  Three different tests occur in
    the code and are kept apart here:
      syntactic   u == dimensionless          (empty container)        [syn_dimless]
-     dimensional u.dimensionality == {}      (percent, mV/volt pass)  [dim_dimless]
+     dimensional u.dimensionality == {} and base-unit factor 1 (radian passes; percent, mV/volt do not
+                 since the scaled-argument repair)                    [dim_dimless]
      semantic    get_base_units equal        (scale and dimensions)   [sem_equiv]
 
    Magnitudes.  traverse computes with pint Quantities, i.e. it carries a magnitude next to the unit
@@ -46,7 +47,8 @@ Fixpoint expand (G : env) (n : nunit) : uvec :=
 
 Definition syn_dimless (n : nunit) : bool := ueqb n uone.
 Definition sem_equiv (G : env) (a b : nunit) : bool := ueqb (expand G a) (expand G b).
-Definition dim_dimless (G : env) (a : nunit) : bool := dimensionless_b (expand G a).
+Definition dim_dimless (G : env) (a : nunit) : bool :=
+  dimensionless_b (expand G a) && is_one (scale (expand G a)).
 Definition lookup_unit (G : env) (u : Z) : option nunit := nthZ (utab G) u.
 
 (* the six UnitError subclasses; any other exception; outside the modelled fragment *)
@@ -102,6 +104,42 @@ Definition mpow (b : mag) (m : Q) (fx : bool) : ures mag :=
 Definition qu := (nunit * mag)%type.
 Definition qmul (a b : qu) : qu := (umul (fst a) (fst b), mmul (snd a) (snd b)).
 
+(* float(exponent), used by convert and (since the F6 repair) by traverse: numbers and Quantities evaluate
+   (Quantity._eval_evalf), a Variable raises TypeError.  Tracked exactly for sums and products of numbers /
+   quantities; everything else numeric is declined. *)
+Inductive xval := XNum (q : Q) | XSym | XUns.
+Definition xbin (op : Q -> Q -> Q) (a b : xval) : xval :=
+  match a, b with
+  | XUns, _ | _, XUns => XUns
+  | XSym, _ | _, XSym => XSym
+  | XNum x, XNum y => XNum (op x y)
+  end.
+
+Fixpoint expo_value (x : expr) : xval :=
+  match x with
+  | ENum _ q => XNum q
+  | EQty id q _ => if id <? -1 then XUns else XNum q
+  | EVar _ => XSym
+  | EAdd l => (fix go (l : list expr) : xval :=
+                 match l with [] => XNum 0 | y :: r => xbin Qplus (expo_value y) (go r) end) l
+  | EMul l => (fix go (l : list expr) : xval :=
+                 match l with [] => XNum 1 | y :: r => xbin Qmult (expo_value y) (go r) end) l
+  | _ => XUns
+  end.
+
+(* traverse first replaces variables that have a non-zero initial value by that value *)
+Fixpoint expo_infer (G : env) (x : expr) : xval :=
+  match x with
+  | ENum _ q => XNum q
+  | EQty id q _ => if id <? -1 then XUns else XNum q
+  | EVar v => match nthZ (vtab G) v with Some (_, Some q) => XNum q | _ => XSym end
+  | EAdd l => (fix go (l : list expr) : xval :=
+                 match l with [] => XNum 0 | y :: r => xbin Qplus (expo_infer G y) (go r) end) l
+  | EMul l => (fix go (l : list expr) : xval :=
+                 match l with [] => XNum 1 | y :: r => xbin Qmult (expo_infer G y) (go r) end) l
+  | _ => XUns
+  end.
+
 (* ---- traverse ----------------------------------------------------------------------------------- *)
 Definition infer_same (G : env) (rs : list qu) : ures qu :=
   match rs with
@@ -115,22 +153,16 @@ Definition infer_prod (rs : list qu) : ures qu :=
   | r0 :: rest => UOk (fold_left qmul rest r0)
   end.
 
-Definition infer_pow (rb rx : qu) : ures qu :=
+(* the exponent is read from the exponent EXPRESSION (F6 repair): float(expr.args[1]) after substituting
+   initial values; it is a Python float *)
+Definition infer_pow (rb : qu) (ux : nunit) (xv : xval) : ures qu :=
   let (ub, mb) := rb in
-  let (ux, mx) := rx in
   if negb (syn_dimless ux) then UErr EMustBeDimensionless
-  else match mx with
-       | MVar => UErr EMustBeNumber
-       | MSym => UUnsupp
-       | MIrr => if syn_dimless ub
-                 then match mb with
-                      | MNum q _ => if Qle_bool q 0 then UUnsupp else UOk ([], MIrr)
-                      | MIrr => UUnsupp
-                      | _ => UOk ([], MSym)
-                      end
-                 else UUnsupp
-       | MNum m fx => bindr (mpow mb m fx)
-                        (fun r => UOk (if syn_dimless ub then [] else upow ub m, r))
+  else match xv with
+       | XSym => UErr EMustBeNumber
+       | XUns => UUnsupp
+       | XNum m => bindr (mpow mb m true)
+                     (fun r => UOk (if syn_dimless ub then [] else upow ub m, r))
        end.
 
 Definition infer_div (ry rt : qu) : ures qu :=
@@ -202,7 +234,7 @@ Fixpoint infer (G : env) (e : expr) {struct e} : ures qu :=
   | EVar v => infer_var G v
   | EAdd l => bindr (go l) (infer_same G)
   | EMul l => bindr (go l) infer_prod
-  | EPow b x => bindr (infer G b) (fun rb => bindr (infer G x) (fun rx => infer_pow rb rx))
+  | EPow b x => bindr (infer G b) (fun rb => bindr (infer G x) (fun rx => infer_pow rb (fst rx) (expo_infer G x)))
   | EFn f l => bindr (go l) (infer_fn G f)
   | EDeriv y t _ => bindr (infer G y) (fun ry => bindr (infer G t) (fun rt => infer_div ry rt))
   | ERel _ a b => bindr (infer G a) (fun _ => bindr (infer G b) (fun _ => UErr EBoolean))
@@ -227,24 +259,17 @@ Definition unit_of (G : env) (e : expr) : option nunit :=
   match infer G e with UOk r => Some (fst r) | _ => None end.
 
 (* ---- the guard of C04_infer_sound_partial --------------------------------------------------------
-   lit_exp: the exponent is a number literal or a quantity whose unit is literally dimensionless
-   (so the magnitude traverse carries IS the value of the exponent; excludes F6.  Products / negations
-   of literals are also read correctly by the code but are not covered by the theorem).
-   guard false e: every exponent is lit_exp; arguments of exp/log/trig/... have a unit EQUIVALENT to
-   dimensionless (traverse only tests the dimension: finding "scaled dimensionless argument");
-   floor/ceiling arguments have SI scale 1 (homog); Abs has one argument; piecewise conditions are
-   well-united (guard true c: relations compare equivalent units) -- traverse never looks at them. *)
-Definition lit_exp (G : env) (x : expr) : bool :=
-  match x with
-  | ENum _ _ => true
-  | EQty id _ u => negb (id <? -1) && match lookup_unit G u with Some [] => true | _ => false end
-  | _ => false
-  end.
+   guard false e: every exponent is a closed sum / product of numbers and quantities (expo_value = XNum: no
+   variable -- an initial value is not the value -- and nothing the model declines); functions other than
+   floor / ceiling are unary; floor / ceiling arguments have SI scale 1 (they do not commute with
+   rescaling); piecewise conditions are well-united (guard true c: relations compare equivalent units)
+   -- traverse never looks at them. *)
+Definition num_exp (x : expr) : bool :=
+  match expo_value x with XNum _ => true | _ => false end.
 
-Definition arg_ok (G : env) (f : Z) (x : expr) : bool :=
+Definition arg_ok (G : env) (x : expr) : bool :=
   match unit_of G x with
-  | Some n => if (f =? fn_floor) || (f =? fn_ceiling) then is_one (scale (expand G n))
-              else ueqb (expand G n) uone
+  | Some n => is_one (scale (expand G n))
   | None => false
   end.
 
@@ -252,10 +277,10 @@ Fixpoint guard (G : env) (cond : bool) (e : expr) {struct e} : bool :=
   match e with
   | ENum _ _ | EConst _ | EQty _ _ _ | EVar _ | EDeriv _ _ _ => negb cond
   | EAdd l | EMul l => negb cond && forallb (guard G false) l
-  | EPow b x => negb cond && guard G false b && lit_exp G x
+  | EPow b x => negb cond && guard G false b && num_exp x
   | EFn f l => negb cond && forallb (guard G false) l &&
-               (if f =? fn_abs then match l with [_] => true | _ => false end
-                else forallb (arg_ok G f) l)
+               (if (f =? fn_floor) || (f =? fn_ceiling) then forallb (arg_ok G) l
+                else match l with [_] => true | _ => false end)
   | ERel _ a b => cond && guard G false a && guard G false b &&
                   match unit_of G a, unit_of G b with
                   | Some u, Some v => sem_equiv G u v
@@ -317,28 +342,6 @@ Definition maybe_convert (G : env) (e : expr) (c : bool) (from : nunit) (to : op
                | None => UUnsupp
                end
       end
-  end.
-
-(* float(exponent): numbers and Quantities evaluate (Quantity._eval_evalf), a Variable raises TypeError.
-   Tracked exactly for sums and products of numbers / quantities; everything else numeric is declined. *)
-Inductive xval := XNum (q : Q) | XSym | XUns.
-Definition xbin (op : Q -> Q -> Q) (a b : xval) : xval :=
-  match a, b with
-  | XUns, _ | _, XUns => XUns
-  | XSym, _ | _, XSym => XSym
-  | XNum x, XNum y => XNum (op x y)
-  end.
-
-Fixpoint expo_value (x : expr) : xval :=
-  match x with
-  | ENum _ q => XNum q
-  | EQty id q _ => if id <? -1 then XUns else XNum q
-  | EVar _ => XSym
-  | EAdd l => (fix go (l : list expr) : xval :=
-                 match l with [] => XNum 0 | y :: r => xbin Qplus (expo_value y) (go r) end) l
-  | EMul l => (fix go (l : list expr) : xval :=
-                 match l with [] => XNum 1 | y :: r => xbin Qmult (expo_value y) (go r) end) l
-  | _ => XUns
   end.
 
 Definition lastu (us : list nunit) : option nunit :=
@@ -414,10 +417,7 @@ Fixpoint convert (G : env) (e : expr) (to : option nunit) {struct e} : cres :=
         match us with
         | [] => UOther
         | u0 :: ur =>
-            let actual := fold_left umul ur u0 in
-            if (match to with Some _ => true | None => false end) || c
-            then maybe_convert G (EMul l') c actual to
-            else UOk (e, c, actual)
+            maybe_convert G (if c then EMul l' else e) c (fold_left umul ur u0) to
         end)
   | EPow b x =>
       bindr (convert G x (Some [])) (fun xr =>
